@@ -19,6 +19,9 @@
 (* carry an explicit scope annotation (never modified by inference), plus  *)
 (* a set of unused root declarations.  Recursion (cycles, self calls),     *)
 (* unreachable and uncalled subroutines are all in the enumeration.        *)
+(* The concretiser gives every user subroutine scope-restricted statements *)
+(* (error, restart, esi, synthetic, set beresp.*, set resp.*, return), so  *)
+(* the inferred scopes show in its diagnostics.                            *)
 (* Duplicated declarations (one name declared twice, also across kinds:    *)
 (* plain / functional subroutine, acl, table, backend, director) are added *)
 (* by the concretiser to the permuted declaration blocks; the model's      *)
@@ -27,15 +30,16 @@
 EXTENDS Naturals, Sequences, FiniteSets, TLC, Json, Randomization
 
 CONSTANTS Decls,      \* kinds of unused root declarations a program may carry (post passes), e.g. {"acl", "table"}
-          NUsers,     \* number of user subroutines
+          NRoots,     \* lifecycle entry points: 2 = vcl_recv, vcl_deliver; 3 = also vcl_fetch
+          NUsers,     \* number of user subroutines (<= 6)
           MaxEdges,   \* call statements in the whole program
           Sample      \* 0: every graph; n > 0: n random graphs (seeded)
 
-Roots == {"vcl_recv", "vcl_deliver"}
-Users == { u \in {"u1", "u2", "u3", "u4"} : \E k \in 1..NUsers : u = <<"u1", "u2", "u3", "u4">>[k] }
+Roots == {"vcl_recv", "vcl_deliver"} \cup (IF NRoots >= 3 THEN {"vcl_fetch"} ELSE {})
+Users == { u \in {"u1", "u2", "u3", "u4", "u5", "u6"} : \E k \in 1..NUsers : u = <<"u1", "u2", "u3", "u4", "u5", "u6">>[k] }
 Subs == Roots \cup Users
 Scopes == {"RECV", "DELIVER", "FETCH"}
-RootScope(s) == IF s = "vcl_recv" THEN {"RECV"} ELSE {"DELIVER"}
+RootScope(s) == IF s = "vcl_recv" THEN {"RECV"} ELSE IF s = "vcl_deliver" THEN {"DELIVER"} ELSE {"FETCH"}
 AllEdges == Subs \X Users
 \* (the post-pass part keeps the emission ORDER in the state: 5 kinds + 3 uncalled subroutines are already 10^5 states per program)
 
@@ -54,7 +58,7 @@ Init0(p) == [s \in Subs |-> IF s \in Roots THEN RootScope(s) ELSE IF s \in p.exp
 Init ==
   /\ prog \in (IF Sample = 0 THEN Programs(MaxEdges)
                ELSE { [edges |-> E, explicit |-> RandomElement(SUBSET Users), unused |-> RandomElement({{}, Decls})]
-                      : E \in { RandomSubset(i % (MaxEdges + 1), AllEdges) : i \in 1..Sample } })
+                      : E \in { RandomSubset(3 + (i % (MaxEdges - 2)), AllEdges) : i \in 1..Sample } })
   /\ scopes = Init0(prog)
   /\ phase = "infer" /\ pending = {} /\ out = <<>>
 
@@ -105,7 +109,7 @@ ReachesCycle(p) == { s \in Subs : \E t \in ReachFrom(p, {s}, Cardinality(Subs)) 
 SetToSeq(X) == LET RECURSIVE F(_) F(Y) == IF Y = {} THEN <<>> ELSE LET y == CHOOSE z \in Y : TRUE IN <<y>> \o F(Y \ {y}) IN F(X)
 Behaviour == [kind |-> "passes",
               edges |-> SetToSeq(prog.edges), explicit |-> SetToSeq(prog.explicit), unused |-> SetToSeq(prog.unused),
-              users |-> SetToSeq(Users),
+              users |-> SetToSeq(Users), roots |-> SetToSeq(Roots),
               scopes |-> [s \in Users |-> SetToSeq(Fixpoint(prog)[s])],
               unrecognized |-> SetToSeq({ u \in Users : Fixpoint(prog)[u] = {} }),
               recursive |-> SetToSeq(ReachesCycle(prog)),
